@@ -247,8 +247,7 @@ Proof.
   - apply (Good_ret_ok (fun st => with_data _ st)). reflexivity.
   - intros st st' r E. destruct (reg_get name (st_reg st)) as [spec|]; [|apply (Good_ret_err st st' r E)].
     revert st' r E.
-    set (h1 := fun s : state => with_data (add_value_at ap
-                 (Con (fold_left (fun acc e => add (fst e) (Leaf (SStr (snd e))) acc) args [])) (st_data s)) s).
+    set (h1 := fun s : state => with_data (add_value_at ap (args_doc args (st_data s)) (st_data s)) s).
     set (h2 := fun s : state => with_data (remove_at ap (st_data s)) s).
     intros st' r E.
     apply (Good_post (fun s => rec spec (h1 s)) h2 (fun _ => eq_refl)
